@@ -65,12 +65,15 @@ F3 ==
 
 (* F4: routes in two VRFs; a VRF may be absent from the target *)
 Dsts == {"any", "n14", "n12"}
+\* gBd / gBi: the same next hop with an administrative distance / an outgoing interface (longer command forms)
 RouteSets(vrfs) == {rs \in SUBSET [vrf : vrfs, dst : Dsts, gw : {"gA", "gB"}] :
                        \A r, q \in rs : (r.vrf = q.vrf /\ r.dst = q.dst) => r = q}
 Keep == <<Ace("permit", "ip", T("any", ""), T("any", ""))>>
 F4 ==
-  \E ra \in RouteSets({"", "v1"}), rb \in RouteSets({"", "v1"}), tv1 \in BOOLEAN :
+  \E ra0 \in RouteSets({"", "v1"}), rb \in RouteSets({"", "v1"}), tv1 \in BOOLEAN, long \in {"", "gBd", "gBi"} :
+    LET ra == IF long = "" THEN ra0 ELSE {IF r.gw = "gB" THEN [r EXCEPT !.gw = long] ELSE r : r \in ra0} IN
     /\ Cardinality(ra) <= MaxLen /\ Cardinality(rb) <= MaxLen
+    /\ (long # "" => \E r \in ra0 : r.gw = "gB")
     /\ (~tv1 => \A r \in rb : r.vrf = "")
     /\ dev = Cfg([E0_in |-> Keep, E1_in |-> Keep], [E0 |-> I("", "E0_in", ""), E1 |-> I("v1", "E1_in", "")], ra, FALSE)
     /\ tgt = Cfg(IF tv1 THEN [E0_in |-> Keep, E1_in |-> Keep] ELSE [E0_in |-> Keep],
